@@ -116,6 +116,92 @@ fn check_one(p: &Program, mask: &[bool], root: usize, l: &mut Local, sub: &str, 
     }
 }
 
+/// What the user sees as one backward pass of a model is one pass: a logged user operation that feeds
+/// the model's input - and possibly also its target (an auto-encoder step) or a penalty added by the
+/// cost - has its derivative invoked exactly once, with the adjoint that the same layers and cost give
+/// when composed by hand.
+fn explore_model_pass(opts: &Opts) -> Local {
+    use crate::nn::{build_layers, Act, ActStore, CostK, LayerCfg};
+    use corgi::array::Array;
+    use corgi::numbers::Float;
+    let var = opts.seed % 3;
+    let stacks: Vec<Vec<LayerCfg>> = vec![
+        vec![LayerCfg::Dense { inp: 2, out: 2, act: Act::None }],
+        vec![LayerCfg::Dense { inp: 2, out: 3, act: Act::Sigmoid }, LayerCfg::Dense { inp: 3, out: 2, act: Act::None }],
+        vec![LayerCfg::Dense { inp: 2, out: 2, act: Act::Relu }],
+    ];
+    // target kinds: 0 an independent constant, 1 the logged operation's result itself, 2 a function of it
+    let mut cases: Vec<(usize, u8, usize)> = Vec::new();
+    for si in 0..stacks.len() {
+        for tk in 0..3u8 {
+            for rows in [1usize, 2, 3] {
+                cases.push((si, tk, rows));
+            }
+        }
+    }
+    par(opts, cases.len(), |i, l| {
+        let (si, tk, rows) = &cases[i];
+        let cfgs = &stacks[*si];
+        let case = || format!("Model::backward as one pass: model {} target kind {} rows {}", si, tk, rows);
+        if !l.want(&case) {
+            return;
+        }
+        l.states += 1;
+        l.transitions += 2;
+        l.validated += 1;
+        let run = |through_model: bool| -> Result<Vec<LogEntry>, String> {
+            run_catch(|| {
+                let _ = take_user_log();
+                let store = ActStore::new(cfgs);
+                let mut layers = build_layers(cfgs, &store, 6 + var);
+                let xv: Vec<Float> = (0..rows * 2).map(|k| 0.5 + 0.25 * ((k * 3 + var as usize) % 5) as Float - if k % 2 == 1 { 1.0 } else { 0.0 }).collect();
+                let x = Array::from((vec![*rows, 2], xv)).tracked();
+                let u = user_op(&OpK::UScale(2.0), &[&x], 7);
+                let t = match tk {
+                    0 => Array::from((vec![*rows, 2], vec![0.25; rows * 2])),
+                    1 => u.clone(),
+                    _ => u.sigmoid(),
+                };
+                let cost = CostK::Mse.make();
+                if through_model {
+                    let gd = corgi::optimizer::gd::GradientDescent::new(0.5);
+                    let refs: Vec<&mut dyn corgi::layer::Layer> = layers.iter_mut().map(|b| &mut **b as &mut dyn corgi::layer::Layer).collect();
+                    let mut model = corgi::model::Model::new(refs, &gd, &cost);
+                    let _ = model.forward(u.clone());
+                    let _ = take_user_log();
+                    let _ = model.backward(t);
+                } else {
+                    let mut h = u.clone();
+                    for ly in layers.iter() {
+                        h = ly.forward(h);
+                    }
+                    let e = cost(&h, &t);
+                    let _ = take_user_log();
+                    e.backward(None);
+                }
+                take_user_log()
+            })
+        };
+        match (run(true), run(false)) {
+            (Err(m), _) | (_, Err(m)) => {
+                let _ = take_user_log();
+                l.violation("model-pass", case(), format!("panicked: {}", m));
+            }
+            (Ok(ml), Ok(hl)) => {
+                l.outcome(digest_str(&format!("{}{}", ml.len(), hl.len())));
+                if hl.len() != 1 {
+                    l.violation("model-pass", case(), format!("composed by hand, the logged operation's derivative ran {} times", hl.len()));
+                } else if ml.len() != 1 {
+                    l.violation("model-pass", case(), format!("Model::backward invoked the derivative of the operation feeding the model {} times (adjoints {:?}); one pass invokes it once", ml.len(), ml.iter().map(|e| e.delta.clone()).collect::<Vec<_>>()));
+                } else if ml[0].delta_dims != hl[0].delta_dims || ml[0].delta.iter().zip(&hl[0].delta).any(|(a, b)| a.to_bits() != b.to_bits() && (*a - *b).abs() > 8.0 * Float::EPSILON * (a.abs() + b.abs())) {
+                    l.violation("model-pass", case(), format!("through the model the operation received {:?}, composed by hand {:?}", ml[0].delta, hl[0].delta));
+                }
+            }
+        }
+        l.sample(&case);
+    })
+}
+
 pub fn explore(opts: &Opts) -> Explored {
     let var = opts.seed % 3;
     let spaces: Vec<(&str, Vec<OpK>, usize)> = match opts.tier {
@@ -334,6 +420,7 @@ pub fn explore(opts: &Opts) -> Explored {
         total.merge(ml);
         st
     };
+    total.merge(explore_model_pass(opts));
     Explored {
         local: total,
         bounds: json!({"spaces": stats, "machines": machine_stats, "leaves": 2, "masks": "all 4", "roots": "every op node", "handle_deviations": "handles of one or of all non-root op nodes dropped before the pass; 0 or 1 re-binding of a tracked op node through .tracked() at any later point of the construction (programs of up to 4 op nodes)", "self_product_chain_depths": format!("1..{}", max_depth)}),
